@@ -95,6 +95,15 @@ S4Set ==
                  IFn("lp32", <<Param("s", T16), Param("c", T8), Param("i", TU(32))>>, <<TEither(T8, T16)>>, BlkE(<<>>, ERight(V("s")))),
                  IFn("lpsw", <<Param("s", T16), Param("c", T8), Param("i", TU(4))>>, <<TEither(T16, T8)>>, BlkE(<<>>, ELeft(V("s")))),
                  IFn("lp2", <<Param("s", T16), Param("i", TU(4))>>, <<TEither(T8, T16)>>, BlkE(<<>>, ERight(V("s")))),
+                 \* typing is nominal: a counter (argument, element ...) of a type that merely has the LAYOUT of an integer
+                 IFn("lpb", <<Param("s", T16), Param("c", T8), Param("i", TBool)>>, <<TEither(T8, T16)>>, BlkE(<<>>, ERight(V("s")))),
+                 IFn("lpt", <<Param("s", T16), Param("c", T8), Param("i", TTup(<<TU(4), TU(4)>>))>>, <<TEither(T8, T16)>>, BlkE(<<>>, ERight(V("s")))),
+                 IFn("lpa", <<Param("s", T16), Param("c", T8), Param("i", TArr(TU(1), 4))>>, <<TEither(T8, T16)>>, BlkE(<<>>, ERight(V("s")))),
+                 IFn("lpe", <<Param("s", T16), Param("c", T8), Param("i", TEither(TUnit, TUnit))>>, <<TEither(T8, T16)>>, BlkE(<<>>, ERight(V("s")))),
+                 IFn("lp1", <<Param("s", T16), Param("c", T8), Param("i", TU(1))>>, <<TEither(T8, T16)>>, BlkE(<<>>, ERight(V("s")))),
+                 IFn("lp8", <<Param("s", T16), Param("c", T8), Param("i", TU(8))>>, <<TEither(T8, T16)>>, BlkE(<<>>, ERight(V("s")))),
+                 IFn("lp64", <<Param("s", T16), Param("c", T8), Param("i", TU(64))>>, <<TEither(T8, T16)>>, BlkE(<<>>, ERight(V("s")))),
+                 IFn("acct", <<Param("e", TTup(<<TU(4), TU(4)>>)), Param("s", T16)>>, <<T16>>, BlkE(<<>>, V("s"))),
                  Main(Blk(ss))>>
       l16(e) == SLet(PId("r"), T16, e)
       l8(e) == SLet(PId("r"), T8, e)
@@ -116,6 +125,21 @@ S4Set ==
         SLet(PId("r"), TEither(T16, T8), ECall(CForWhile("lp"), <<Dec(0), Dec(1)>>)),
         SLet(PId("r"), TEither(T8, T16), ECall(CForWhile("lp"), <<Dec(1), Dec(0), Dec(0)>>)),
         SLet(PId("r"), TEither(T8, T16), ECall(CForWhile("g"), <<Dec(0), Dec(1)>>)),
+        SLet(PId("r"), TEither(T8, T16), ECall(CForWhile("lpb"), <<Dec(0), Dec(1)>>)),
+        SLet(PId("r"), TEither(T8, T16), ECall(CForWhile("lpt"), <<Dec(0), Dec(1)>>)),
+        SLet(PId("r"), TEither(T8, T16), ECall(CForWhile("lpa"), <<Dec(0), Dec(1)>>)),
+        SLet(PId("r"), TEither(T8, T16), ECall(CForWhile("lpe"), <<Dec(0), Dec(1)>>)),
+        SLet(PId("r"), TEither(T8, T16), ECall(CForWhile("lp1"), <<Dec(0), Dec(1)>>)),
+        SLet(PId("r"), TEither(T8, T16), ECall(CForWhile("lp8"), <<Dec(0), Dec(1)>>)),
+        SLet(PId("r"), TEither(T8, T16), ECall(CForWhile("lp64"), <<Dec(0), Dec(1)>>)),
+        l16(ECall(CFn("g"), <<ETuple(<<Dec(1), Dec(2)>>), Dec(2)>>)),
+        l16(ECall(CFold("acct", 4), <<lst, Dec(0)>>)),
+        l16(ECall(CFold("acct", 4), <<EList(<<ETuple(<<Dec(1), Dec(2)>>)>>), Dec(0)>>)),
+        l16(ECall(CFold("acc", 4), <<EList(<<ETuple(<<Dec(1), Dec(2)>>)>>), Dec(0)>>)),
+        l8(JetE("add_8", <<Dec(1), Dec(2)>>)), SLet(PId("r"), TTup(<<TBool, T8>>), JetE("add_8", <<Dec(1), Dec(2)>>)),
+        SLet(PId("r"), TTup(<<TU(1), T8>>), JetE("add_8", <<Dec(1), Dec(2)>>)),
+        SLet(PId("r"), TBool, JetE("eq_8", <<ETuple(<<Dec(1), Dec(2)>>), Dec(3)>>)),
+        SLet(PId("r"), TU(1), JetE("eq_8", <<Dec(1), Dec(3)>>)),
         l8(Call1(CUnwrap, ESome(Dec(1)))), l8(Call1(CUnwrap, Dec(1))), l8(ECall(CUnwrap, <<ESome(Dec(1)), Dec(2)>>)), l8(ECall(CUnwrap, <<>>)),
         l8(Call1(CUnwrapLeft(T16), ELeft(Dec(1)))), l8(Call1(CUnwrapLeft(T16), ERight(Dec(1)))), l8(Call1(CUnwrapLeft(T16), ERight(Dec(300)))),
         l16(Call1(CUnwrapRight(T8), ERight(Dec(300)))), l8(Call1(CUnwrapRight(T8), ESome(Dec(1)))),
